@@ -811,7 +811,7 @@ def o_c10(recs):
                 bad.append((i, "branch --list printed %r, stored %r" % (got, want)))
         elif st.name == "rev-parse" and r.res.cls == "ok":
             names = [x for x in st.argv[1:] if x != b"--"]
-            want = [refs.get(hb if n.lower() == b"head" else n) for n in names]
+            want = [refs.get(hb if n == b"HEAD" else n) for n in names]
             got = [l for l in r.res.out.split(b"\n") if l]
             if got != want:
                 bad.append((i, "rev-parse printed %r, stored %r" % (got, want)))
